@@ -59,6 +59,8 @@ fn ops<T: Sc>(t: &mut Toks, cx: &mut Ctx) -> String {
     out.push_str(&format!(" {} {} {}", match p.degree() { Ok(d) => d.to_string(), Err(_) => "E".into() }, p.is_zero() as usize, p.size()));
     let tr = polyres!({ let mut z = p.clone(); z.trim(); z });
     let ix = valres!(p[n]);
+    let sx = polyres!({ let mut z = p.clone(); z[n] = s; z });
+    match &sx { Ok(z) => { let mut e = pc.clone(); if n < e.len() { e[n] = s; } cx.check(n < pc.len() && same_vec(&coeffs(z), &e), "indexed write"); } Err(_) => cx.check(n >= pc.len(), "indexed write panicked in range") }
     // ---- oracle ----
     if T::is_exact() || T::TAG == "f" || T::TAG == "c" {
         let exact = T::is_exact() || cx_small(&pc) && cx_small(&qc);
